@@ -460,16 +460,22 @@ def evaluate(ctx, cases, impl, model, tag="c", env=None, do_model=True):
     return corr, orc
 
 
-def shrink(ctx, impl, o, env=None):
+def shrink(ctx, impl, o, env=None, budget_s=25):
+    import time
     c = o["case"]
+    t0 = time.time()
 
     def fails(ops):
+        if time.time() - t0 > budget_s:      # out of shrinking budget: keep what we have
+            return False
         res, crashed = run_impl(impl, [case_line("z", (c[0], c[1], ops, c[3]))], env)
         return bool(crashed) or res.get("z.o", "OK") != "OK"
     if not fails(c[2]):
         return c[2], o["what"]
     ops = core.shrink_list(c[2], fails, max_steps=300)
     res, crashed = run_impl(impl, [case_line("z", (c[0], c[1], ops, c[3]))], env)
+    if not (crashed or res.get("z.o", "OK") != "OK"):
+        return c[2], o["what"]
     return ops, (crashed.get("z") or res.get("z.o"))
 
 
